@@ -890,3 +890,28 @@ impl BuilderIncoming for DockerBuilder {
         Ok(res)
     }
 }
+
+/// Verification hook: the private path computations of this module, callable from `verif_paths`.
+#[cfg(sccache_verif)]
+pub mod verif {
+    use std::path::{Path, PathBuf};
+
+    pub trait JoinOut {
+        fn into_result(self) -> Result<PathBuf, String>;
+    }
+    impl JoinOut for PathBuf {
+        fn into_result(self) -> Result<PathBuf, String> {
+            Ok(self)
+        }
+    }
+    impl JoinOut for anyhow::Result<PathBuf> {
+        fn into_result(self) -> Result<PathBuf, String> {
+            self.map_err(|e| format!("{:#}", e))
+        }
+    }
+
+    /// `join_suffix` as the builder uses it (whether or not it can refuse a suffix)
+    pub fn join_suffix(path: &Path, suffix: &Path) -> Result<PathBuf, String> {
+        super::join_suffix(path, suffix).into_result()
+    }
+}
